@@ -43,13 +43,17 @@ def scope_programs(chk):
     for t in gen_scope.binder_trees():
         add(t)
     n_bind = len(progs) - n2 - n_meth
+    # exhaustive: a reader (global / free / nonlocal / class / lambda / comprehension) several SILENT function levels below the owner
+    for t in gen_scope.chain_trees():
+        add(t)
+    n_chain = len(progs) - n2 - n_meth - n_bind
     n_exh = len(progs)
     n_rand = 800 if chk.tier == "quick" else 12000
     tries = 0
     while len(progs) < n_exh + n_rand and tries < n_rand * 40:
         tries += 1
         add(gen_scope.random_tree(rng, "module", rng.choice([3, 3, 4]), 2))
-    return progs, {"exhaustive_depth2_chains": n2, "exhaustive_method_classref_trees": n_meth, "exhaustive_inner_binder_trees": n_bind, "random_trees": len(progs) - n_exh, "by_depth": shapes,
+    return progs, {"exhaustive_depth2_chains": n2, "exhaustive_method_classref_trees": n_meth, "exhaustive_inner_binder_trees": n_bind, "exhaustive_silent_chain_trees": n_chain, "random_trees": len(progs) - n_exh, "by_depth": shapes,
                    "candidates_rejected_by_cpython": len(seen) - len(progs)}
 
 
